@@ -310,3 +310,183 @@ fn mutate_at(root: &StructureTag, path: &mut Vec<usize>, node: &StructureTag, ou
         }
     }
 }
+
+// ---------------------------------------------------------------------------------------------
+// Additions for lane `results` (C03): controls with an explicit criticality OCTET (any value),
+// wide-range response generator, resultCode content octets as a parameter.
+
+/// a control as a server may encode it: criticality absent or any single BOOLEAN content octet
+#[derive(Clone, Debug)]
+pub struct WireCtl {
+    pub oid: Vec<u8>,
+    pub crit: Option<u8>,
+    pub val: Option<Vec<u8>>,
+}
+
+pub fn gen_wire_ctl(rng: &mut Rng) -> WireCtl {
+    let oid = match rng.below(8) {
+        0..=3 => rng.pick(KNOWN_OIDS).as_bytes().to_vec(),
+        4..=6 => format!("1.3.6.1.4.1.{}.{}", rng.below(70000), rng.below(9)).into_bytes(),
+        // LDAPOID is only required to be text by the client: any UTF-8
+        _ => utf8_string(rng, 8),
+    };
+    let crit = match rng.below(6) {
+        0 | 1 => None,
+        2 => Some(0xff),
+        3 => Some(0x00),
+        4 => Some(*rng.pick(&[0x01u8, 0x02, 0x7f, 0x80, 0xfe, 0x55])),
+        _ => Some(rng.next() as u8),
+    };
+    let val = match rng.below(6) {
+        0 | 1 => None,
+        2 => Some(vec![]),
+        3 => Some(rng.bytes(300)),
+        _ => {
+            let n = *rng.pick(&[1usize, 2, 5, 20, 127, 128, 129]);
+            Some(rng.bytes(n))
+        }
+    };
+    WireCtl { oid, crit, val }
+}
+
+pub fn wire_ctl_tree(c: &WireCtl) -> StructureTag {
+    let mut ks = vec![prim(0, 4, c.oid.clone())];
+    if let Some(b) = c.crit {
+        ks.push(prim(0, 1, vec![b]));
+    }
+    if let Some(v) = &c.val {
+        ks.push(prim(0, 4, v.clone()));
+    }
+    cons(0, 16, ks)
+}
+
+/// what the client must report (RFC 4511 4.1.11: criticality DEFAULT FALSE; BER: any non-zero octet is TRUE)
+pub fn wire_ctls_text(cs: &Option<Vec<WireCtl>>) -> String {
+    let parts: Vec<String> = cs
+        .iter()
+        .flatten()
+        .map(|c| {
+            format!(
+                "{}:{}:{}:{}",
+                hex(&c.oid),
+                if matches!(c.crit, Some(b) if b != 0) { 1 } else { 0 },
+                match &c.val { Some(v) => hex(v), None => String::from("none") },
+                known_name(&c.oid)
+            )
+        })
+        .collect();
+    format!("[{}]", parts.join(","))
+}
+
+/// text field: empty / short / multi-byte / long (>= 300 bytes)
+pub fn gen_text(rng: &mut Rng) -> Vec<u8> {
+    match rng.below(12) {
+        0 | 1 => vec![],
+        2 => {
+            let mut s = vec![];
+            while s.len() < 300 {
+                s.extend(utf8_string(rng, 40));
+                s.push(b'x');
+            }
+            s
+        }
+        3 => "čćž-ß-日本語-𝄞".as_bytes().to_vec(),
+        _ => utf8_string(rng, 20),
+    }
+}
+
+/// all codes 0..=122, the documented special ones, random below 2^31, and (rarely) 2^31..2^32
+pub fn gen_rc(rng: &mut Rng) -> u32 {
+    match rng.below(8) {
+        0 | 1 => 0,
+        2 => *rng.pick(&[5u32, 6, 10, 14, 32, 49, 80, 88, 122, 127, 128, 255, 256, 4096, 32767, 32768, 65535, 8388607, 8388608, 2147483647]),
+        3 | 4 | 5 => rng.below(123) as u32,
+        6 => rng.next() as u32 & 0x7fffffff,
+        _ => {
+            if rng.chance(1, 4) {
+                (rng.next() as u32) | 0x80000000
+            } else {
+                rng.next() as u32 & 0x7fffffff
+            }
+        }
+    }
+}
+
+/// content octets of a non-negative resultCode: minimal two's complement, or padded with leading zeros
+pub fn gen_rc_octets(rng: &mut Rng, rc: u32) -> Vec<u8> {
+    let mut b = int_octets(rc as i64);
+    if rng.chance(1, 8) {
+        for _ in 0..rng.range(1, 4) {
+            b.insert(0, 0);
+        }
+    }
+    b
+}
+
+/// wide-range response of a given kind (`ctls` is left `None`: lane `results` carries WireCtl lists)
+pub fn gen_resp_wide(rng: &mut Rng, app: u64) -> Resp {
+    let refs = match rng.below(4) {
+        0 => {
+            let n = rng.below(6);
+            Some(
+                (0..n)
+                    .map(|_| match rng.below(8) {
+                        0 => vec![],
+                        1 => format!("ldap://höst{}/dc=é,dc=𝄞", rng.below(100)).into_bytes(),
+                        _ => format!("ldap://h{}/dc=x{}", rng.below(100), rng.below(1000)).into_bytes(),
+                    })
+                    .collect(),
+            )
+        }
+        _ => None,
+    };
+    Resp {
+        id: gen_id(rng),
+        app,
+        rc: gen_rc(rng),
+        matched: gen_text(rng),
+        text: gen_text(rng),
+        refs,
+        sasl: if app == 1 && rng.chance(1, 2) {
+            Some(match rng.below(4) {
+                0 => vec![],
+                1 => rng.bytes(300),
+                _ => rng.bytes_below(24),
+            })
+        } else {
+            None
+        },
+        exop_name: if app == 24 && rng.chance(1, 2) {
+            Some(if rng.chance(1, 6) { utf8_string(rng, 10) } else { format!("1.3.6.1.4.1.{}.{}", rng.below(9999), rng.below(99)).into_bytes() })
+        } else {
+            None
+        },
+        exop_val: if app == 24 && rng.chance(1, 2) {
+            Some(match rng.below(4) {
+                0 => vec![],
+                1 => rng.bytes(300),
+                _ => rng.bytes_below(40),
+            })
+        } else {
+            None
+        },
+        ctls: None,
+    }
+}
+
+/// `resp_op` with the resultCode content octets given
+pub fn resp_op_rcc(r: &Resp, rcc: &[u8]) -> StructureTag {
+    let mut op = resp_op(r);
+    if let PL::C(ks) = &mut op.payload {
+        ks[0] = prim(0, 10, rcc.to_vec());
+    }
+    op
+}
+
+pub fn envelope_wire(id: i64, op: StructureTag, ctls: &Option<Vec<WireCtl>>) -> StructureTag {
+    let mut ks = vec![prim(0, 2, int_octets(id)), op];
+    if let Some(cs) = ctls {
+        ks.push(cons(2, 0, cs.iter().map(wire_ctl_tree).collect()));
+    }
+    cons(0, 16, ks)
+}
